@@ -19,10 +19,10 @@ CFG = """CONSTANTS
   Environ <- MCEnviron
   KeyNames <- MCKeyNames
   KeyChars <- MCKeyChars
-  TheSchema <- SchemaG
-  SetCands <- MCSetCands
-  ArgPool <- MCArgPool
-  IgnoreLists <- MCIgnore
+  TheSchema <- {schema}
+  SetCands <- {cands}
+  ArgPool <- {pool}
+  IgnoreLists <- {ignore}
   MaxDepth = {depth}
 INIT Init
 NEXT Next
@@ -30,8 +30,16 @@ VIEW View
 """
 
 
-def write_cfg(path, depth, check=True, export=False):
-    text = CFG.format(depth=depth)
+INSTANCES = {
+    "SchemaG": dict(schema="SchemaG", cands="MCSetCands", pool="MCArgPool", ignore="MCIgnore"),
+    # pools derived from the schema's own option table (MC_Arg.GenArgPool / GenIgnore / GenSetCandsA)
+    "SchemaG2": dict(schema="SchemaG2", cands="GenSetCandsA", pool="GenArgPool", ignore="GenIgnore"),
+    "SchemaG3": dict(schema="SchemaG3", cands="GenSetCandsA", pool="GenArgPool", ignore="GenIgnore"),
+}
+
+
+def write_cfg(path, depth, check=True, export=False, instance="SchemaG"):
+    text = CFG.format(depth=depth, **INSTANCES[instance])
     if check:
         text += "INVARIANT C16_PathsAgree\nINVARIANT C16_Options\nPROPERTY C16_OnlySupplied\n"
     if export:
@@ -40,15 +48,16 @@ def write_cfg(path, depth, check=True, export=False):
         fp.write(text)
 
 
-def schema_desc():
+def schema_desc(instance="SchemaG"):
     d = tlc.scratch("cinco-schemaG-")
     with open(os.path.join(d, "ShowG.tla"), "w") as fp:
         fp.write(
-            '---- MODULE ShowG ----\nEXTENDS MC_Arg\nASSUME PrintT(<<"CASE", ToJson(SchemaG)>>)\n'
+            '---- MODULE ShowG ----\nEXTENDS MC_Arg\nASSUME PrintT(<<"CASE", ToJson(%s)>>)\n'
             "I == cfg = <<>> /\\ ev = <<>> /\\ steps = 0\nN == FALSE /\\ UNCHANGED <<cfg, ev, steps>>\n====\n"
+            % instance
         )
     with open(os.path.join(d, "ShowG.cfg"), "w") as fp:
-        fp.write(CFG.format(depth=1).split("INIT")[0] + "INIT I\nNEXT N\n")
+        fp.write(CFG.format(depth=1, **INSTANCES[instance]).split("INIT")[0] + "INIT I\nNEXT N\n")
     for name in os.listdir(tlc.SPEC_DIR):
         if name.endswith(".tla"):
             os.symlink(os.path.join(tlc.SPEC_DIR, name), os.path.join(d, name))
@@ -125,7 +134,7 @@ class World:
                     sub = build(f)
                     for _p, _s, fld in cinco.get_all_fields(sub):
                         cinco.item_ref_path(fld)
-                    setattr(s, key, sub)
+                    setattr(s, key, cinco.make_type(sub, "T_" + key) if f.get("ctype") else sub)
                 elif f["kind"] == "virtual":
                     setattr(s, key, cinco.VirtualField(lambda cfg: 42))
                 else:
@@ -231,24 +240,49 @@ OPTS = {
 DESTS = [["host"], ["port"], ["rate"], ["debug"], ["log_level"], ["db", "host"], ["db", "pool_size"], ["db", "ssl"], ["db", "auth", "user_name"]]
 
 
-def driver(cinco, desc, seed, n_traces, length):
+def option_table(cinco, desc):
+    """(OPTS, DESTS, leaves) of a schema, read from the real generated parser."""
+    schema = cfgadapter.build_schema_topdown(cinco, desc)
+    parser = cinco.generate_argparse_parser(schema, allow_abbrev=False)
+    opts, dests = {}, []
+    for a in parser._actions:
+        for o in a.option_strings:
+            if o in ("-h", "--help"):
+                continue
+            cls = type(a).__name__
+            opts[o] = "on" if cls == "_StoreTrueAction" else "off" if cls == "_StoreFalseAction" else "any"
+            if a.dest.split(".") not in dests:
+                dests.append(a.dest.split("."))
+    return opts, dests
+
+
+def driver(cinco, desc, seed, n_traces, length, generic=False):
     import random
 
     rng = random.Random(seed)
     traces = []
+    OPTS, DESTS = (globals()["OPTS"], globals()["DESTS"]) if not generic else option_table(cinco, desc)
+    if generic and not OPTS:
+        return []
 
     def value(kind):
         if kind == "int":
             return rng.choice([str(rng.randint(-2, 12000)), " 7 ", "x1", "3.0"])
         if kind == "float":
             return rng.choice(["%d.5" % rng.randint(0, 9), str(rng.randint(0, 5)), "inf", "nope"])
+        if kind == "any":
+            return rng.choice([str(rng.randint(0, 70000)), "x1", "2.5", "10.0.0.%d" % rng.randint(0, 300), "10.1.0.0/16", "h.example", "http://a/b", "ab", "", "yes"])
         return rng.choice(["info", "DEBUG", " debug ", "h.example", "bob", "", "a b"])
 
     for _ in range(n_traces):
         w = World(cinco, desc)
         events = []
         for _ in range(length):
-            if rng.random() < 0.3:
+            if generic and rng.random() < 0.3:
+                dst = rng.choice(DESTS)
+                v = rng.choice([{"t": "int", "i": rng.randint(0, 70000)}, {"t": "bool", "b": rng.random() < 0.5}, {"t": "str", "s": list(value("any"))}])
+                ev = {"op": "Set", "p": dst[:-1], "k": dst[-1], "v": v}
+            elif not generic and rng.random() < 0.3:
                 p, k, v = rng.choice([
                     ([], "port", {"t": "int", "i": rng.randint(1, 9999)}),
                     ([], "debug", {"t": "bool", "b": rng.random() < 0.5}),
@@ -270,7 +304,7 @@ def driver(cinco, desc, seed, n_traces, length):
                         argv.append({"o": list(o)} if rng.random() < 0.95 else {"o": list(o), "v": list("1")})
                     else:
                         argv.append({"o": list(o), "v": list(value(kind))} if rng.random() < 0.95 else {"o": list(o)})
-                ignore = rng.sample(DESTS, rng.choice([0, 0, 1, 2, 3]))
+                ignore = rng.sample(DESTS, min(len(DESTS), rng.choice([0, 0, 1, 2, 3])))
                 ev = {"op": "Override", "argv": argv, "ignore": ignore}
             # a value that starts with "-" would be read as an option by argparse: skip those
             if ev["op"] == "Override" and any("v" in t and "".join(t["v"]).startswith("-") for t in ev["argv"]):
@@ -278,7 +312,7 @@ def driver(cinco, desc, seed, n_traces, length):
             # "--opt" without its value swallows the next token in argparse: keep it last
             if ev["op"] == "Override":
                 av = ev["argv"]
-                bad = [i for i, t in enumerate(av) if "v" not in t and OPTS.get("".join(t["o"])) in ("str", "int", "float")]
+                bad = [i for i, t in enumerate(av) if "v" not in t and OPTS.get("".join(t["o"])) in ("str", "int", "float", "any")]
                 if bad and bad[0] != len(av) - 1:
                     continue
             res = w.step(ev)
@@ -292,44 +326,45 @@ def driver(cinco, desc, seed, n_traces, length):
     return traces
 
 
-def run(tier, seed):
+def run_instance(tier, seed, instance):
     cinco = common.import_repo()
     out = common.Outcome("C16")
     d = tlc.scratch("cinco-c16-")
-    depth = 3 if tier == "quick" else 4
+    pre = "" if instance == "SchemaG" else instance + ":"
+    depth = (3 if tier == "quick" else 4) if instance == "SchemaG" else (2 if tier == "quick" else 3)
     cfg = os.path.join(d, "mc.cfg")
-    write_cfg(cfg, depth)
+    write_cfg(cfg, depth, instance=instance)
     res = tlc.run("MC_Arg.tla", cfg, workers=16, keep=())
     if not res.ok:
-        out.violation("spec:%s" % res.violation, "TLC: %s violated on ArgMachine" % res.violation, {"kind": "tlc-counterexample", "predicate": res.violation, "behaviour": res.cex})
-    desc = schema_desc()
+        out.violation("%sspec:%s" % (pre, res.violation), "TLC: %s violated on ArgMachine" % res.violation, {"kind": "tlc-counterexample", "predicate": res.violation, "behaviour": res.cex})
+    desc = schema_desc(instance)
     adapter = Adapter(cinco, desc)
     cfgx = os.path.join(d, "x.cfg")
-    write_cfg(cfgx, 2 if tier == "quick" else 3, check=False, export=True)
+    write_cfg(cfgx, (2 if tier == "quick" else 3) if instance == "SchemaG" else (1 if tier == "quick" else 2), check=False, export=True, instance=instance)
     exp = tlc.run("MC_Arg.tla", cfgx, workers=1, keep=("INIT", "EDGE"))
     edges, inits = normalise(exp.printed.get("EDGE", []), exp.printed.get("INIT", []))
     g = replay.Graph(inits, edges)
     stats, mism = replay.run_graph(adapter, g, seed=seed)
     for m in mism[:20]:
         out.violation(
-            "replay:%s:%s" % (m.ev["op"], m.detail.split(":")[0]),
+            "%sreplay:%s:%s" % (pre, m.ev["op"], m.detail.split(":")[0]),
             "spec->code: %s differs from the specification: %s" % ({k: v for k, v in m.ev.items() if k in ("op", "p", "k", "ignore")}, m.detail[:400]),
             m.to_json(),
         )
     # code -> spec
     from .. import tracecheck
 
-    ntr, ltr = (200, 10) if tier == "quick" else (3000, 16)
-    traces = driver(cinco, desc, seed, ntr, ltr)
+    ntr, ltr = ((200, 10) if tier == "quick" else (3000, 16)) if instance == "SchemaG" else ((80, 8) if tier == "quick" else (800, 14))
+    traces = driver(cinco, desc, seed, ntr, ltr, generic=instance != "SchemaG")
     tcfg = os.path.join(d, "trace.cfg")
     with open(tcfg, "w") as fp:
-        fp.write(CFG.format(depth=999).replace("INIT Init", "INIT TraceInit").replace("NEXT Next", "NEXT TraceNext").replace("VIEW View", "VIEW TraceView") + "ACTION_CONSTRAINT Report\n")
+        fp.write(CFG.format(depth=999, **INSTANCES[instance]).replace("INIT Init", "INIT TraceInit").replace("NEXT Next", "NEXT TraceNext").replace("VIEW View", "VIEW TraceView") + "ACTION_CONSTRAINT Report\n")
     verdicts, tstats = tracecheck.validate("Trace_Arg.tla", tcfg, traces)
     for v in [v for v in verdicts if not v.accepted][:15]:
         k = (v.at or v.consumed + 1) - 1
         e = v.trace["events"][k] if k < len(v.trace["events"]) else {}
         out.violation(
-            "trace:%s:%s" % (e.get("op"), ",".join(v.bad_inv or v.bad_obs or ["not-enabled"])),
+            "%strace:%s:%s" % (pre, e.get("op"), ",".join(v.bad_inv or v.bad_obs or ["not-enabled"])),
             "code->spec: recorded command-line trace rejected: %s" % v.describe()[:300],
             v.to_json(),
         )
@@ -338,7 +373,7 @@ def run(tier, seed):
         "states": res.distinct,
         "transitions": res.generated,
         "exhaustive": True,
-        "tlc_instance": "MC_Arg SchemaG MaxDepth=%d, %d command lines x 3 ignore lists" % (depth, 17),
+        "tlc_instance": "MC_Arg %s MaxDepth=%d" % (instance, depth),
         "traces_validated_against_impl": stats["cases"] + len(verdicts),
         "code_to_spec_traces": len(verdicts),
         "code_to_spec_events": sum(len(t["events"]) for t in traces),
@@ -354,4 +389,14 @@ def run(tier, seed):
         "argparse itself is modelled (store / store_true / store_false, last occurrence wins, unknown or malformed arguments exit); abbreviations are disabled in the harness (allow_abbrev=False)",
         "one schema instance (scalars of every storage type, list, virtual field, two nested levels with '_' in keys), 17 command lines, 3 ignore lists (none, one name as str, list)",
     ]
+    return out
+
+
+def run(tier, seed):
+    from . import cfgmachine
+
+    out = run_instance(tier, seed, "SchemaG")
+    # further schema shapes with command lines, ignore lists and assignments derived from the option table
+    for inst in ("SchemaG2", "SchemaG3"):
+        out = cfgmachine.merge(out, run_instance(tier, seed, inst))
     return out
